@@ -559,6 +559,13 @@ impl<'a> Ui<'a> {
     fn restart(&mut self, clear: bool) {
         let cols = self.sc.columns as usize;
         let before = self.snapshot_copy();
+        // what the snapshot resolves a few indices to (restart(false) must not change that:
+        // "stays exactly as it was, and remains safe to read")
+        let sample: Vec<(u32, Option<u32>)> = {
+            let _q = sim::quiet();
+            let s = self.n().snapshot();
+            (0..24u32).map(|i| (i, s.get_item(i).map(|it| validate_item(&it, "C12", "before restart").0))).collect()
+        };
         // the old stream stops being the current one inside the call
         self.cur_stream += 1;
         self.set_ledger_model();
@@ -581,6 +588,16 @@ impl<'a> Ui<'a> {
             let now = (s.matches().to_vec(), s.item_count(), pattern_atoms(s.pattern(), cols));
             if now != before {
                 soft("C12", "restart-changed", "restart(false) changed the snapshot".to_string());
+            }
+            {
+                let _q = sim::quiet();
+                for (i, was) in &sample {
+                    let is = s.get_item(*i).map(|it| validate_item(&it, "C12", "after restart(false)").0);
+                    // an old writer may have published the index meanwhile, nothing else may change
+                    if was.is_some() && is != *was {
+                        soft("C12", "restart-changed", format!("restart(false): index {i} of the snapshot resolved to uid {was:?} before the call and to {is:?} after it"));
+                    }
+                }
             }
             if self.frozen.is_none() {
                 self.frozen = Some(before);
